@@ -168,6 +168,39 @@ let () = iter_lines (fun line ->
                 print_endline ("x" ^ String.concat "" (List.map (fun (c, d) ->
                     Printf.sprintf " m %d %d %s ;" (int_of_z c) (zlen d) (fnv d)) segs)))
        | _ -> print_endline "err")
+  | [ "tjm"; sm; flags; wj; wa; dicc; hx ] ->
+      (match unhex hx with
+       | _ :: _ :: rest ->
+           let fl = List.init (String.length flags) (fun i -> flags.[i] = '1') in
+           (match tj_transform_multi (z_of_int (int_of_string sm)) fl (wj = "1") (wa = "1") (nat_of_int 100000) rest (unhex dicc) with
+            | None -> print_endline "err"
+            | Some outs ->
+                print_endline ("x " ^ String.concat " | " (List.map (fun segs -> String.concat "" (List.map (fun (c, d) ->
+                    Printf.sprintf " m %d %d %s ;" (int_of_z c) (zlen d) (fnv d)) segs)) outs)))
+       | _ -> print_endline "err")
+  | [ "wst"; gs; ns; what; len ] ->
+      let n = int_of_string len in
+      let data = List.init n (fun _ -> zb 0) in
+      let r = if what = "2" then jpeg_write_icc_profile_api (z_of_int (int_of_string gs)) (z_of_int (int_of_string ns)) data
+              else jpeg_write_marker_api (z_of_int (int_of_string gs)) (z_of_int (int_of_string ns)) ((if what = "0" then zb 254 else zb 229), data) in
+      print_endline (match r with WBadState -> "BAD_STATE" | WBadLength -> "BAD_LENGTH" | WBufferSize -> "BUFFER_SIZE" | WOk _ -> "ok")
+  | [ "rdall"; cfgs; hx ] ->
+      let slot_str f s = String.concat "," (List.map (fun k -> match s (zb k) with None -> "-" | Some v -> f v) [0; 1; 2; 3]) in
+      let qf (l : z list) = fnv (List.concat_map (fun q -> let v = int_of_z q in [zb (v lsr 8); zb (v land 255)]) l) in
+      let hf ((b, v) : z list * z list) = fnv (b @ v) in
+      let view (sc : scan) (st : rstate) =
+        Printf.sprintf "view %s;%d;%d;%d;%d ri=%d qt=%s dc=%s ac=%s nm=%d"
+          (String.concat "," (List.map (fun c -> Printf.sprintf "%d.%d.%d" (int_of_nat c.sc_ci) (int_of_z c.sc_dc) (int_of_z c.sc_ac)) sc.s_comps))
+          (int_of_z sc.s_Ss) (int_of_z sc.s_Se) (int_of_z sc.s_Ah) (int_of_z sc.s_Al) (int_of_z st.r_h.h_restart)
+          (slot_str qf st.r_qt) (slot_str hf st.r_dc) (slot_str hf st.r_ac) (List.length st.r_saved) in
+      (match read_file (cfg_of cfgs) (unhex hx) with
+       | None -> print_endline "err"
+       | Some (views, stf) ->
+           let h = stf.r_h in
+           print_endline (String.concat " | " (List.map (fun v -> view v.sv_scan v.sv_state) views)
+             ^ Printf.sprintf " | end ri=%d dens=%d.%d.%d jfif=%d adobe=%d tr=%d |" (int_of_z h.h_restart) (int_of_z h.h_unit) (int_of_z h.h_xd)
+                 (int_of_z h.h_yd) (b2i h.h_saw_jfif) (b2i h.h_saw_adobe) (int_of_z h.h_transform)
+             ^ String.concat "" (List.map (fun m -> Printf.sprintf " m %d %d %d %s ;" (int_of_z m.sm_code) (int_of_z m.sm_orig) (zlen m.sm_data) (fnv m.sm_data)) stf.r_saved)))
   | [ "iccms"; ms ] ->
       (* marker list given directly: code:hex,...  (original_length = data length) *)
       let l = List.map (fun (c, d) -> { sm_code = c; sm_orig = z_of_int (zlen d); sm_data = d }) (segs_of ms) in
